@@ -122,6 +122,19 @@ def check_props(mod, timeout=900):
     return res
 
 
+def coqchk(mods, timeout=2400):
+    """Independent re-check of the compiled theorem files and everything they depend on (thorough tier)."""
+    rc, out, err, dt = run(["coqchk", "-silent", "-o", "-Q", os.path.join(COQ, "theories"), ""] + list(mods), cwd=COQ, timeout=timeout)
+    txt = out + err
+    m = re.search(r"CONTEXT SUMMARY.*", txt, re.S)
+    summary = m.group(0) if m else txt[-1500:]
+    axioms = []
+    ma = re.search(r"\* Axioms:\s*(.*?)(?=\n\* |\Z)", summary, re.S)
+    if ma:
+        axioms = [l.strip() for l in ma.group(1).splitlines() if l.strip() and l.strip() != "<none>"]
+    return {"ok": rc == 0, "axioms": axioms, "summary": summary[:3000], "wall_s": round(dt, 1)}
+
+
 def strip_comments(s):
     out = []
     depth = 0
